@@ -6,6 +6,7 @@ import VtProofs.VersatilesRead
 import VtProofs.PMTilesRead
 import VtProofs.TarRead
 import VtProofs.MBTilesCover
+import VtProofs.PMTilesCover
 /-!
 # C16 — readers accept every container that is valid by the published format layouts
 
@@ -200,6 +201,15 @@ theorem versatiles_cover_contains {K : Inflate} {file : Bytes} {fmt : TileFormat
 theorem tardir_cover_contains (r : TarDir.Reader) (t : (Nat × Nat × Nat) × Bytes) (ht : t ∈ r.tiles)
     (hz : t.1.2.2 ≤ 31) : ∃ box ∈ TarDir.cover r, box.level = t.1.2.2 ∧ box.contains2 t.1.1 t.1.2.1 = true :=
   VtProofs.TarRead.cover_contains r t ht hz
+
+/-- PMTiles: the coverage walk over all runs and leaf directories yields level boxes that contain every
+    tile of a valid file -/
+theorem pmtiles_cover_contains {K : Inflate} {file : Bytes} {fmt : TileFormat} {comp : TComp}
+    {m : Nat × Nat × Nat → Option Bytes} (v : VtProofs.PMTilesRead.ValidPMTiles K file fmt comp m) :
+    ∃ r, PMTiles.openReader K file = .ok r ∧
+      ∀ x y z blob, z ≤ 31 → x < 2 ^ z → y < 2 ^ z → m (x, y, z) = some blob →
+        ∃ box ∈ r.cover, box.level = z ∧ box.contains2 x y = true :=
+  VtProofs.PMTilesCover.cover_contains v
 
 /-- mbtiles: the reader's "estimate the row range on three columns, then refine" queries return the EXACT
     column and row range of every level that has rows (bounds that are attained) -/
